@@ -1,3 +1,4 @@
+import NasimModel.Generated.Shipped
 import NasimModel.Generated.GeneratorOk
 import NasimModel.Model.Plan
 import NasimModel.Proofs.Inv
@@ -40,6 +41,11 @@ theorem C16_plan_sound (sc : Scenario) (plan : List Nat) (h : solvedBy sc plan =
   unfold solvedBy goal hasAccess at h
   simpa [List.all_eq_true] using h
 
+theorem C16_plan_witness (sc : Scenario) (plan : List Nat) (h : solvedBy sc plan = true) :
+    ∃ s, ReachFlat sc s ∧ goal sc.net s = true := by
+  obtain ⟨s, h1, h2, _⟩ := C16_plan_sound sc plan h
+  exact ⟨s, h1, h2⟩
+
 /-- the plan found by saturation is sound whenever it is accepted -/
 theorem C16_findPlan_sound (sc : Scenario) (h : solvedBy sc (findPlan sc) = true) :
     ∃ s, ReachFlat sc s ∧ goal sc.net s = true := by
@@ -67,5 +73,30 @@ theorem sweep_reach (sc : Scenario) :
       have := ReachFlat.step (sc := sc) i 0 hs
       rwa [ha] at this
     · exact ih _ _ hxs hs
+
+/-- C16 (shipped): each of the nine shipped benchmark scenarios — regenerated from the repository's
+YAML files on every run — has a goal-reaching action sequence; the plans are kernel-checked in
+`Generated/Shipped.lean` -/
+theorem C16_shipped_solvable :
+    ∀ p ∈ [(Generated.sc_tiny, Generated.sc_tiny_plan), (Generated.sc_tiny_hard, Generated.sc_tiny_hard_plan),
+           (Generated.sc_tiny_small, Generated.sc_tiny_small_plan), (Generated.sc_small, Generated.sc_small_plan),
+           (Generated.sc_small_honeypot, Generated.sc_small_honeypot_plan),
+           (Generated.sc_small_linear, Generated.sc_small_linear_plan), (Generated.sc_medium, Generated.sc_medium_plan),
+           (Generated.sc_medium_single_site, Generated.sc_medium_single_site_plan),
+           (Generated.sc_medium_multi_site, Generated.sc_medium_multi_site_plan)],
+      ∃ s, ReachFlat p.1 s ∧ goal p.1.net s = true := by
+  have h := Generated.shipped_all_solvable
+  intro p hp
+  simp only [List.mem_cons, List.not_mem_nil, or_false] at hp
+  rcases hp with rfl | rfl | rfl | rfl | rfl | rfl | rfl | rfl | rfl
+  · exact C16_plan_witness _ _ h.1
+  · exact C16_plan_witness _ _ h.2.1
+  · exact C16_plan_witness _ _ h.2.2.1
+  · exact C16_plan_witness _ _ h.2.2.2.1
+  · exact C16_plan_witness _ _ h.2.2.2.2.1
+  · exact C16_plan_witness _ _ h.2.2.2.2.2.1
+  · exact C16_plan_witness _ _ h.2.2.2.2.2.2.1
+  · exact C16_plan_witness _ _ h.2.2.2.2.2.2.2.1
+  · exact C16_plan_witness _ _ h.2.2.2.2.2.2.2.2
 
 end NASim
